@@ -26,7 +26,7 @@ def run(ctx):
             via_stdin = r.chance(1, 4)
             ctx.count('dialect.' + name)
             ctx.count('listo.%d' % listo)
-            want = basicprog.render(lines, tbl, listo)
+            want = basicprog.render(lines, tbl, listo, dialect_idx=basicprog.DIALECTS[name][0])
             meta = {'dialect': name, 'listo': listo, 'want': want, 'nitems': sum(len(l.items) for l in lines), 'stdin': via_stdin}
             if via_stdin:
                 cs_ = vlib.Case(name, {}, ['--dialect', name, '--listo=%d' % listo, '-'], tool='basic', stdin=data, meta=meta)
@@ -51,7 +51,7 @@ def run(ctx):
                     lines.append(basicprog.Line(10 + j, items[:50]))
                 data = basicprog.encode(lines, be)
                 cases.append(vlib.Case(name, {'p.bbc': data}, ['--dialect', name, '--listo', '0', '@p.bbc'], tool='basic',
-                                       meta={'dialect': name, 'listo': 0, 'want': basicprog.render(lines, tbls[canon], 0), 'nitems': 999, 'stdin': False}))
+                                       meta={'dialect': name, 'listo': 0, 'want': basicprog.render(lines, tbls[canon], 0, dialect_idx=idx), 'nitems': 999, 'stdin': False}))
     vlib.run_cases(cases, bc.bins(impl))
     for c in cases:
         bc.compare(ctx, c, 'e2e-listing')
